@@ -56,6 +56,22 @@ fn lattice(_tier: Tier, channels: &[usize]) -> Vec<Cfg> {
     v
 }
 
+fn c11_channels(tier: Tier) -> &'static [usize] {
+    if tier == Tier::Quick {
+        &[1, 2, 3, 8]
+    } else {
+        &[1, 2, 3, 5, 8]
+    }
+}
+
+fn c16_channels(tier: Tier) -> &'static [usize] {
+    if tier == Tier::Quick {
+        &[2]
+    } else {
+        &[1, 2, 3]
+    }
+}
+
 fn alphabet(cfg: &Cfg, with_partial: bool) -> Vec<Op> {
     let mut a = vec![Op::P];
     if cfg.kind.is_async() {
@@ -262,10 +278,10 @@ impl Check for C11 {
         "E1 unmerged: every history over the alphabet up to the depth, executed on n-channel objects, single-channel twins and every constant mask"
     }
     fn n_items(&self, tier: Tier) -> usize {
-        lattice(tier, &[1, 2, 3, 8]).len()
+        lattice(tier, c11_channels(tier)).len()
     }
     fn run_item(&self, tier: Tier, idx: usize, journal: Option<&JournalFile>) -> Result<Value, String> {
-        let cfg = lattice(tier, &[1, 2, 3, 8]).into_iter().nth(idx).ok_or("no item")?;
+        let cfg = lattice(tier, c11_channels(tier)).into_iter().nth(idx).ok_or("no item")?;
         let mut acc = Acc::new();
         let depth = match (tier, cfg.channels) {
             (Tier::Quick, 8) => 4,
@@ -675,10 +691,10 @@ impl Check for C16 {
         "E1 unmerged: in every state reached by a history up to the depth, wrapper calls and core calls are executed on twins of the real object and compared bit for bit"
     }
     fn n_items(&self, tier: Tier) -> usize {
-        lattice(tier, &[2]).len()
+        lattice(tier, c16_channels(tier)).len()
     }
     fn run_item(&self, tier: Tier, idx: usize, journal: Option<&JournalFile>) -> Result<Value, String> {
-        let cfg = lattice(tier, &[2]).into_iter().nth(idx).ok_or("no item")?;
+        let cfg = lattice(tier, c16_channels(tier)).into_iter().nth(idx).ok_or("no item")?;
         let mut acc = Acc::new();
         let depth = if tier == Tier::Quick { 4 } else { 5 };
         let alpha = alphabet(&cfg, true);
